@@ -29,7 +29,7 @@ theorem strict_nothing_reaches_client_before_flush (w : Strict) (ops : List Op) 
   exact ⟨h1, h2, h4, h5, h3⟩
 
 /-- What the strict wrapper hands to response validation: the first status the handler wrote (0 when it
-wrote none — see `StatusUnrecorded`), and all the bytes it wrote, in order. -/
+wrote none; the middleware then validates under 200, see `validatedStatus`), and all the bytes it wrote, in order. -/
 theorem strict_records (ops : List Op) :
     (Strict.run {} ops).status = (wroteStatus ops).getD 0 ∧
     (Strict.run {} ops).buf = written ops ∧
@@ -137,7 +137,7 @@ as if the handler had written nothing; no status code and no body byte of the ha
 For every handler and every ErrFunc. -/
 theorem strict_invalid_response_replaced (cfg : Cfg) (env : Env) (ops : List Op)
     (hs : cfg.strict = true) (hr : env.routeFound = true) (hq : env.reqOK = true)
-    (hbad : env.respOK (Strict.run {} ops).status (Strict.run {} ops).client.hdr (Strict.run {} ops).buf = false) :
+    (hbad : env.respOK (validatedStatus (Strict.run {} ops).status) (Strict.run {} ops).client.hdr (Strict.run {} ops).buf = false) :
     (middleware cfg env ops).client.seen = (runDirect {} (cfg.errOps .responseInvalid)).seen ∧
     (middleware cfg env ops).client.panicked = (runDirect {} (cfg.errOps .responseInvalid)).panicked ∧
     (middleware cfg env ops).errCalls = [.responseInvalid] ∧
@@ -153,7 +153,7 @@ theorem strict_invalid_response_replaced (cfg : Cfg) (env : Env) (ops : List Op)
 called, nothing is logged. -/
 theorem strict_valid_response_delivered (cfg : Cfg) (env : Env) (ops : List Op) (hv : ValidCodes ops)
     (hs : cfg.strict = true) (hr : env.routeFound = true) (hq : env.reqOK = true)
-    (hok : env.respOK (Strict.run {} ops).status (Strict.run {} ops).client.hdr (Strict.run {} ops).buf = true) :
+    (hok : env.respOK (validatedStatus (Strict.run {} ops).status) (Strict.run {} ops).client.hdr (Strict.run {} ops).buf = true) :
     (middleware cfg env ops).client.seen = ⟨(wroteStatus ops).getD 200, written ops⟩ ∧
     (middleware cfg env ops).client.panicked = false ∧
     (middleware cfg env ops).errCalls = [] ∧ (middleware cfg env ops).logs = [] := by
@@ -176,14 +176,10 @@ theorem meetsB_iff (o : Outcome) (s : SpecOut) : meetsB o s = true ↔ Meets o s
   unfold meetsB Meets
   cases s.full <;> simp [and_assoc]
 
-/-
-Full-strength statement (does NOT hold for the code as it is — see `statusUnrecorded_witness`):
-  middleware_meets_spec :  ∀ cfg env ops, ValidCodes ops → Meets (middleware cfg env ops) (spec cfg env ops)
--/
-/-- **middleware_meets_spec_partial.** Outside the `StatusUnrecorded` class the model of the middleware meets
-the specification of the property for every configuration, environment and handler with acceptable codes. -/
-theorem middleware_meets_spec_partial (cfg : Cfg) (env : Env) (ops : List Op) (hv : ValidCodes ops)
-    (hx : StatusUnrecorded cfg env ops = false) :
+/-- **middleware_meets_spec.** The model of the middleware meets the specification of the property for every
+configuration, environment and handler with acceptable status codes (full strength: the former exclusion
+`StatusUnrecorded`, finding F-C14-1, is repaired — a handler that writes nothing is validated as status 200). -/
+theorem middleware_meets_spec (cfg : Cfg) (env : Env) (ops : List Op) (hv : ValidCodes ops) :
     Meets (middleware cfg env ops) (spec cfg env ops) := by
   cases hr : env.routeFound with
   | false => simp [Meets, middleware, spec, hr]
@@ -202,17 +198,16 @@ theorem middleware_meets_spec_partial (cfg : Cfg) (env : Env) (ops : List Op) (h
     have hh : (Strict.run {} ops).client.hdr = finalHdr ops := by
       rw [strict_client_during_handler]; rfl
     -- the verdict the middleware obtains is the verdict on the response the handler wrote
-    have hverdict : env.respOK (Strict.run {} ops).status (Strict.run {} ops).client.hdr (Strict.run {} ops).buf
-        = respValid env ops := by
+    have hverdict : env.respOK (validatedStatus (Strict.run {} ops).status) (Strict.run {} ops).client.hdr
+        (Strict.run {} ops).buf = respValid env ops := by
       rw [r1, r2, hh]
       unfold respValid
       cases hw : wroteStatus ops with
-      | some n => simp
-      | none =>
-        have hwr : written ops = [] := written_of_noStatus ops hw
-        have hx' := hx
-        simp only [StatusUnrecorded, hs, hr, hq, hw, Option.isNone_none, Bool.true_and, bne_eq_false_iff_eq] at hx'
-        simp [hwr, hx']
+      | some n =>
+        have hn : validCode n = true := firstStatus_valid false ops hv n hw
+        have hn0 : n ≠ 0 := by intro h0; rw [h0] at hn; exact absurd hn (by decide)
+        simp [validatedStatus, hn0]
+      | none => simp [validatedStatus]
     cases hval : respValid env ops with
     | true =>
       obtain ⟨d1, d4, d2, _⟩ := strict_valid_response_delivered cfg env ops hv hs hr hq (hverdict.trans hval)
@@ -221,29 +216,44 @@ theorem middleware_meets_spec_partial (cfg : Cfg) (env : Env) (ops : List Op) (h
       obtain ⟨d1, d2, d3, _⟩ := strict_invalid_response_replaced cfg env ops hs hr hq (hverdict.trans hval)
       simp [Meets, spec, hr, hq, hs, hval, h3, d1, d2, d3]
 
-/-! ## the deviation: finding F-C14-1 -/
+/-- The verdict logged in non-strict mode is the verdict on the response the client received, whenever the
+handler fixed its status itself (no Flush before the first WriteHeader/Write). -/
+theorem warn_verdict_is_on_delivered_response (ops : List Op) (hv : ValidCodes ops)
+    (hf : firstStatus true ops = firstStatus false ops) :
+    validatedStatus (Warn.run {} ops).status = (runDirect {} ops).seen.status := by
+  rw [(warn_records ops).1, Client.seen, (runDirect_status_body {} ops rfl hv).1]
+  simp only [hf]
+  cases hw : wroteStatus ops with
+  | some n =>
+    have hn : validCode n = true := firstStatus_valid false ops hv n hw
+    have hn0 : n ≠ 0 := by intro h0; rw [h0] at hn; exact absurd hn (by decide)
+    unfold wroteStatus at hw
+    simp [validatedStatus, hn0, hw]
+  | none =>
+    unfold wroteStatus at hw
+    simp [validatedStatus, hw]
+
+/-! ## regression of the repaired finding F-C14-1 -/
 
 /-- a document whose `200` response demands a JSON body and that has no `default` response: status 0 is
 "not documented, allowed", status 200 with an empty body is invalid -/
 def witnessEnv : Env := { routeFound := true, reqOK := true, respOK := fun st _ _ => st != 200 }
 def witnessCfg : Cfg := { strict := true, errOps := defaultErrOps }
 
-/-- **Witness (F-C14-1).** Strict mode, the handler returns without writing: the wrapper reports status 0 to
-response validation, the verdict is "valid", and the client receives the handler's (implicit) 200 with an
-empty body although that response fails validation — the model does not meet the specification, and the
-input lies in the exclusion class. -/
-theorem statusUnrecorded_witness :
-    StatusUnrecorded witnessCfg witnessEnv [] = true ∧
-    ¬ Meets (middleware witnessCfg witnessEnv []) (spec witnessCfg witnessEnv []) ∧
-    (middleware witnessCfg witnessEnv []).client.seen = ⟨200, []⟩ ∧
-    (spec witnessCfg witnessEnv []).seen = ⟨500, "server error\n".toList⟩ := by
-  refine ⟨by decide, ?_, by decide, by decide⟩
-  rw [← meetsB_iff]; decide
-
-/-- The same handler with an explicit WriteHeader(200) is outside the class and is replaced by the error. -/
-theorem statusUnrecorded_contrast :
-    StatusUnrecorded witnessCfg witnessEnv [.writeHeader 200] = false ∧
+/-- **Regression (F-C14-1, repaired).** Strict mode, the handler returns without writing, the implicit 200
+with an empty body fails validation: the client gets the server error, exactly like a handler that calls
+WriteHeader(200) itself, and model = spec on this input. -/
+theorem statusUnrecorded_repaired :
+    (middleware witnessCfg witnessEnv []).client.seen = ⟨500, "server error\n".toList⟩ ∧
+    (middleware witnessCfg witnessEnv []).errCalls = [.responseInvalid] ∧
+    meetsB (middleware witnessCfg witnessEnv []) (spec witnessCfg witnessEnv []) = true ∧
     (middleware witnessCfg witnessEnv [.writeHeader 200]).client.seen = ⟨500, "server error\n".toList⟩ := by
+  decide
+
+/-- and the other direction: a documented implicit 200 (anything but 200 is "not supported") is delivered -/
+theorem statusUnrecorded_repaired_valid :
+    (middleware witnessCfg { witnessEnv with respOK := fun st _ _ => st == 200 } []).client.seen = ⟨200, []⟩ ∧
+    (middleware witnessCfg { witnessEnv with respOK := fun st _ _ => st == 200 } []).errCalls = [] := by
   decide
 
 /-! ## ValidationHandler (the older request-only gate) -/
@@ -262,16 +272,16 @@ theorem vhandler_meets_spec (encOps : ReqFail → List Op) (fail : ReqFail) (ops
 /-! ## non-vacuity -/
 
 /-- a non-trivial handler (headers, Write before WriteHeader, a second WriteHeader, pieces, Flush) satisfies
-the hypotheses of `middleware_meets_spec_partial` in strict mode with a verdict function that depends on
+the hypotheses of `middleware_meets_spec` in strict mode with a verdict function that depends on
 status, headers and body; both verdicts occur -/
 example :
     let ops : List Op := [.setHdr "Content-Type" "application/json", .write ['1'], .flush, .writeHeader 404, .write ['2']]
     let env : Env := { routeFound := true, reqOK := true,
                        respOK := fun st h b => st == 200 && hget h "Content-Type" == some "application/json" && b == ['1', '2'] }
-    ValidCodes ops ∧ StatusUnrecorded witnessCfg env ops = false ∧
+    ValidCodes ops ∧
     (middleware witnessCfg env ops).client.seen = ⟨200, ['1', '2']⟩ ∧
     (middleware witnessCfg { env with respOK := fun _ _ _ => false } ops).client.seen = ⟨500, "server error\n".toList⟩ := by
-  refine ⟨?_, by decide, by decide, by decide⟩
+  refine ⟨?_, by decide, by decide⟩
   rw [← validCodesB_iff]; decide
 
 /-- the hypotheses of `strict_invalid_response_replaced` / `strict_valid_response_delivered` are satisfiable,
